@@ -13,7 +13,7 @@ FILES = {
     "jinns/loss/_operators.py": ["C01", "C11"],
     "jinns/loss/_DynamicLoss.py": ["C02"],
     "jinns/loss/_DynamicLossAbstract.py": ["C02", "C12"],
-    "jinns/loss/_loss_utils.py": ["C03", "C05", "C13"],
+    "jinns/loss/_loss_utils.py": ["C03", "C04", "C05", "C13"],
     "jinns/loss/_boundary_conditions.py": ["C04"],
     "jinns/loss/_LossODE.py": ["C03", "C05", "C13"],
     "jinns/loss/_LossPDE.py": ["C03", "C05", "C04", "C13"],
@@ -22,7 +22,7 @@ FILES = {
     "jinns/data/_DataGenerators.py": ["C08", "C09", "C14", "C15"],
     "jinns/data/_Batchs.py": ["C14", "C12"],
     "jinns/solver/_rar.py": ["C16", "C17"],
-    "jinns/solver/_solve.py": ["C07", "C18"],
+    "jinns/solver/_solve.py": ["C07", "C19", "C18"],
     "jinns/validation/_validation.py": ["C19"],
     "jinns/utils/_pinn.py": ["C10"],
     "jinns/utils/_spinn.py": ["C10"],
@@ -121,14 +121,14 @@ def run_one(job):
         sh(f"cp -r {ROOT}/coq {cq}")
         for i in ids:
             t0 = time.time()
-            rc, o = sh(f"cd {ROOT} && VERIF_REPO={wt} VERIF_COQ={cq} VERIF_EVIDENCE_DIR=/tmp/ev_mu_{k} timeout 3000 ./check {i} --tier quick 2>&1 | grep -E '^\\[|^VIOLATION|^KNOWN' | tail -3")
+            rc, o = sh(f"cd {ROOT} && VERIF_REPO={wt} VERIF_COQ={cq} VERIF_EVIDENCE_DIR=/tmp/ev_mu_{k} timeout 1500 ./check {i} --tier quick 2>&1 | grep -E '^\\[|^VIOLATION|^KNOWN' | tail -3")
             det = any(l.startswith("VIOLATION") for l in o.splitlines())
             rec["checks"][i] = dict(detected=det, line=(o.strip().splitlines() or [""])[-1][:200], wall=round(time.time() - t0))
             if det:
                 rec["detected_by"].append(i)
                 break
         if not rec["detected_by"]:
-            rc, o = sh(f"cd {wt} && JAX_PLATFORMS=cpu timeout 2400 /venv/bin/python -m pytest -q -x -p no:cacheprovider --timeout=900 --continue-on-collection-errors {TESTS} 2>&1 | tail -1")
+            rc, o = sh(f"cd {wt} && JAX_PLATFORMS=cpu timeout 900 /venv/bin/python -m pytest -q -x -p no:cacheprovider --timeout=900 --continue-on-collection-errors {TESTS} 2>&1 | tail -1")
             rec["tests_tail"] = o.strip()[-120:]
             rec["tests_pass"] = bool(re.match(r"^51 passed", o.strip().splitlines()[-1] if o.strip() else ""))
     finally:
